@@ -116,7 +116,7 @@ func (r *BinReader) ReadArray(t any, maxSize ...int) {
 
 	ms := MaxArraySize
 	if len(maxSize) != 0 {
-		ms = maxSize[0]
+		ms = max(maxSize[0], 0)
 	}
 
 	lu := r.ReadVarUint()
